@@ -1,7 +1,7 @@
 (* XtermProofs.v -- C09: the driver model against the VT specification, request by request
    and for sequences. *)
 From Coq Require Import ZArith List Bool Lia ZifyBool.
-From Tickit Require Import Csi VT TermPenDefs TermPenSpec XtermDefs XtermSpec.
+From Tickit Require Import Csi VT TermPenDefs TermPenSpec TermPenProofs XtermDefs XtermSpec Gen_SgrOnOff.
 Import ListNotations.
 Local Open Scope Z_scope.
 
@@ -511,8 +511,6 @@ Proof. intros A f a n H. induction n as [|n IH]; [reflexivity|]. cbn. rewrite H,
 (* the one situation in which the requested final position is missed (recorded finding):
    spaces written up to the right edge leave the cursor in the pending-wrap state on the
    last column, and the move back starts from there *)
-Definition erase_trigger (rv : bool) (n : Z) (me : maybe) (v : vt) : bool :=
-  rv && (match me with MNo => true | _ => false end) && (1 <=? n) && (col v + n =? v_cols v) && (0 <? col v).
 
 Lemma erase_ok : forall v rv n me, vt_ok v -> in_range (RErase n me) v ->
   rv = a_reverse (v_sgr v) -> erase_trigger rv n me v = false ->
@@ -673,4 +671,511 @@ Proof.
   split; [vm_compute; reflexivity|]. split; [vm_compute; reflexivity|].
   split; [reflexivity|]. split; [vm_compute; reflexivity|].
   intros (_ & H2 & _). vm_compute in H2. discriminate.
+Qed.
+
+(* ------------------------------------------------------------------ scrollrect *)
+(* margins *)
+Lemma run_decstbm : forall v t b, 1 <= t -> t < b -> b <= v_lines v ->
+  vt_run [csi [[Some t]; [Some b]] 114] v =
+  goto_rc (set_mg v (mkMargins (t - 1) (b - 1) (mg_left (v_mg v)) (mg_right (v_mg v)))) 0 0.
+Proof.
+  intros v t b H1 H2 H3.
+  change (vt_run [csi [[Some t]; [Some b]] 114] v) with (vt_decstbm v [[Some t]; [Some b]]).
+  unfold vt_decstbm, arg1, pnth. cbn [nth pfirst].
+  destruct (t =? 0) eqn:E1; [lia|]. destruct (b =? 0) eqn:E2; [lia|].
+  destruct ((t <? b) && (b <=? v_lines v)) eqn:E3; [reflexivity|lia].
+Qed.
+Lemma run_decstbm_reset : forall v, 1 < v_lines v ->
+  vt_run [csi_0 114] v =
+  goto_rc (set_mg v (mkMargins 0 (v_lines v - 1) (mg_left (v_mg v)) (mg_right (v_mg v)))) 0 0.
+Proof.
+  intros v H.
+  change (vt_run [csi_0 114] v) with (vt_decstbm v []).
+  unfold vt_decstbm, arg1, pnth. cbn [nth pfirst].
+  destruct ((1 <? v_lines v) && (v_lines v <=? v_lines v)) eqn:E3; [reflexivity|lia].
+Qed.
+Lemma run_decslrm : forall v l r, md_lrmm (v_md v) = true -> 1 <= l -> l < r -> r <= v_cols v ->
+  vt_run [csi [[Some l]; [Some r]] 115] v =
+  goto_rc (set_mg v (mkMargins (mg_top (v_mg v)) (mg_bot (v_mg v)) (l - 1) (r - 1))) 0 0.
+Proof.
+  intros v l r Hm H1 H2 H3.
+  change (vt_run [csi [[Some l]; [Some r]] 115] v)
+    with (if md_lrmm (v_md v) then vt_decslrm v [[Some l]; [Some r]] else set_savedcur v (v_cur v)).
+  rewrite Hm. unfold vt_decslrm, arg1, pnth. cbn [nth pfirst].
+  destruct (l =? 0) eqn:E1; [lia|]. destruct (r =? 0) eqn:E2; [lia|].
+  destruct ((l <? r) && (r <=? v_cols v)) eqn:E3; [reflexivity|lia].
+Qed.
+Lemma run_decslrm_right : forall v r, md_lrmm (v_md v) = true -> 1 < r -> r <= v_cols v ->
+  vt_run [csi [[None]; [Some r]] 115] v =
+  goto_rc (set_mg v (mkMargins (mg_top (v_mg v)) (mg_bot (v_mg v)) 0 (r - 1))) 0 0.
+Proof.
+  intros v r Hm H2 H3.
+  change (vt_run [csi [[None]; [Some r]] 115] v)
+    with (if md_lrmm (v_md v) then vt_decslrm v [[None]; [Some r]] else set_savedcur v (v_cur v)).
+  rewrite Hm. unfold vt_decslrm, arg1, pnth. cbn [nth pfirst].
+  destruct (r =? 0) eqn:E2; [lia|].
+  destruct ((1 <? r) && (r <=? v_cols v)) eqn:E3; [reflexivity|lia].
+Qed.
+Lemma run_decslrm_reset : forall v, md_lrmm (v_md v) = true -> 1 < v_cols v ->
+  vt_run [csi_0 115] v =
+  goto_rc (set_mg v (mkMargins (mg_top (v_mg v)) (mg_bot (v_mg v)) 0 (v_cols v - 1))) 0 0.
+Proof.
+  intros v Hm H.
+  change (vt_run [csi_0 115] v)
+    with (if md_lrmm (v_md v) then vt_decslrm v [] else set_savedcur v (v_cur v)).
+  rewrite Hm. unfold vt_decslrm, arg1, pnth. cbn [nth pfirst].
+  destruct ((1 <? v_cols v) && (v_cols v <=? v_cols v)) eqn:E3; [reflexivity|lia].
+Qed.
+
+(* insert / delete *)
+Lemma run_dch : forall v a, vt_run [csi_n a 80] v = vt_dch v (if a =? 0 then 1 else a).
+Proof. reflexivity. Qed.
+Lemma run_dch0 : forall v, vt_run [csi_0 80] v = vt_dch v 1.
+Proof. reflexivity. Qed.
+Lemma run_ich : forall v a, vt_run [csi_n a 64] v = vt_ich v (if a =? 0 then 1 else a).
+Proof. reflexivity. Qed.
+Lemma run_ich0 : forall v, vt_run [csi_0 64] v = vt_ich v 1.
+Proof. reflexivity. Qed.
+Lemma run_dl : forall v a, vt_run [csi_n a 77] v = vt_dl v (if a =? 0 then 1 else a).
+Proof. reflexivity. Qed.
+Lemma run_dl0 : forall v, vt_run [csi_0 77] v = vt_dl v 1.
+Proof. reflexivity. Qed.
+Lemma run_il : forall v a, vt_run [csi_n a 76] v = vt_il v (if a =? 0 then 1 else a).
+Proof. reflexivity. Qed.
+Lemma run_il0 : forall v, vt_run [csi_0 76] v = vt_il v 1.
+Proof. reflexivity. Qed.
+Lemma run_decdc : forall v a, vt_run [csi_q (Some a) 39 126] v = vt_decdc v (if a =? 0 then 1 else a).
+Proof. reflexivity. Qed.
+Lemma run_decdc0 : forall v, vt_run [csi_q None 39 126] v = vt_decdc v 1.
+Proof. reflexivity. Qed.
+Lemma run_decic : forall v a, vt_run [csi_q (Some a) 39 125] v = vt_decic v (if a =? 0 then 1 else a).
+Proof. reflexivity. Qed.
+Lemma run_decic0 : forall v, vt_run [csi_q None 39 125] v = vt_decic v 1.
+Proof. reflexivity. Qed.
+
+(* the vertical and the horizontal part inside margins T..B x L..R, cursor on (T, L) *)
+Definition vert_tokens (d : Z) : list token :=
+  if 1 <? d then [csi_n d 77] else if d =? 1 then [csi_0 77]
+  else if d =? -1 then [csi_0 76] else if d <? -1 then [csi_n (- d) 76] else [].
+Definition horiz_tokens (r : Z) : list token :=
+  (if 1 <? r then [csi_q (Some r) 39 126] else if r =? 1 then [csi_q None 39 126]
+   else if r =? -1 then [csi_q None 39 125] else []) ++
+  (if r <? -1 then [csi_q (Some (- r)) 39 125] else []).
+
+Definition in_region (T B L R y x : Z) : bool := (T <=? y) && (y <=? B) && (L <=? x) && (x <=? R).
+
+Lemma vert_run : forall w d T B L R,
+  v_mg w = mkMargins T B L R -> row w = T -> L <= col w <= R -> T <= B -> Z.abs d <= B - T ->
+  same_frame w (vt_run (vert_tokens d) w) /\
+  row (vt_run (vert_tokens d) w) = row w /\ col (vt_run (vert_tokens d) w) = col w /\
+  forall y x, v_grid (vt_run (vert_tokens d) w) y x =
+              if in_region T B L R y x
+              then (if (T <=? y + d) && (y + d <=? B) then v_grid w (y + d) x else blank w)
+              else v_grid w y x.
+Proof.
+  intros w d T B L R Hm Hrow Hcol HTB Hd.
+  assert (Htb : in_tb w (row w) = true) by (unfold in_tb; rewrite Hm, Hrow; cbn [mg_top mg_bot]; lia).
+  assert (Hlr : in_lr w (col w) = true) by (unfold in_lr; rewrite Hm; cbn [mg_left mg_right]; lia).
+  assert (Hup : forall n, 0 < n -> n = d ->
+     same_frame w (vt_dl w n) /\ row (vt_dl w n) = row w /\ col (vt_dl w n) = col w /\
+     forall y x, v_grid (vt_dl w n) y x =
+        if in_region T B L R y x
+        then (if (T <=? y + d) && (y + d <=? B) then v_grid w (y + d) x else blank w) else v_grid w y x).
+  { intros n Hn Hnd. unfold vt_dl. rewrite Htb, Hlr. cbn [andb]. vt_unfold.
+    split; [repeat split|]. split; [reflexivity|]. split; [reflexivity|].
+    intros y x. unfold scroll_up_from, in_region, in_lr. rewrite Hm. cbn [mg_bot mg_left mg_right].
+    unfold row in Hrow. rewrite Hrow.
+    destruct ((T <=? y) && (y <=? B) && ((L <=? x) && (x <=? R))) eqn:E1.
+    - destruct ((T <=? y) && (y <=? B) && (L <=? x) && (x <=? R)) eqn:E2; [|lia].
+      destruct (y + n <=? B) eqn:E3.
+      + destruct ((T <=? y + d) && (y + d <=? B)) eqn:E4; [|lia]. subst n. reflexivity.
+      + destruct ((T <=? y + d) && (y + d <=? B)) eqn:E4; [lia|]. reflexivity.
+    - destruct ((T <=? y) && (y <=? B) && (L <=? x) && (x <=? R)) eqn:E2; [lia|]. reflexivity. }
+  assert (Hdn : forall n, 0 < n -> n = - d ->
+     same_frame w (vt_il w n) /\ row (vt_il w n) = row w /\ col (vt_il w n) = col w /\
+     forall y x, v_grid (vt_il w n) y x =
+        if in_region T B L R y x
+        then (if (T <=? y + d) && (y + d <=? B) then v_grid w (y + d) x else blank w) else v_grid w y x).
+  { intros n Hn Hnd. unfold vt_il. rewrite Htb, Hlr. cbn [andb]. vt_unfold.
+    split; [repeat split|]. split; [reflexivity|]. split; [reflexivity|].
+    intros y x. unfold scroll_down_from, in_region, in_lr. rewrite Hm. cbn [mg_bot mg_left mg_right].
+    unfold row in Hrow. rewrite Hrow.
+    destruct ((T <=? y) && (y <=? B) && ((L <=? x) && (x <=? R))) eqn:E1.
+    - destruct ((T <=? y) && (y <=? B) && (L <=? x) && (x <=? R)) eqn:E2; [|lia].
+      destruct (y <? T + n) eqn:E3.
+      + destruct ((T <=? y + d) && (y + d <=? B)) eqn:E4; [lia|]. reflexivity.
+      + destruct ((T <=? y + d) && (y + d <=? B)) eqn:E4; [|lia].
+        replace (y - n) with (y + d) by lia. reflexivity.
+    - destruct ((T <=? y) && (y <=? B) && (L <=? x) && (x <=? R)) eqn:E2; [lia|]. reflexivity. }
+  unfold vert_tokens.
+  destruct (1 <? d) eqn:E1.
+  - rewrite run_dl. destruct (d =? 0) eqn:E0; [lia|]. apply Hup; lia.
+  - destruct (d =? 1) eqn:E2.
+    + rewrite run_dl0. apply Hup; lia.
+    + destruct (d =? -1) eqn:E3.
+      * rewrite run_il0. apply Hdn; lia.
+      * destruct (d <? -1) eqn:E4.
+        -- rewrite run_il. destruct (- d =? 0) eqn:E0; [lia|]. apply Hdn; lia.
+        -- rewrite vt_run_nil. split; [apply same_frame_refl|]. split; [reflexivity|]. split; [reflexivity|].
+           intros y x. assert (d = 0) by lia. subst d. rewrite Z.add_0_r.
+           unfold in_region.
+           destruct ((T <=? y) && (y <=? B) && (L <=? x) && (x <=? R)) eqn:E5; [|reflexivity].
+           destruct ((T <=? y) && (y <=? B)) eqn:E6; [reflexivity|lia].
+Qed.
+
+Lemma horiz_run : forall w r T B L R,
+  v_mg w = mkMargins T B L R -> T <= row w <= B -> col w = L -> L <= R -> Z.abs r <= R - L ->
+  same_frame w (vt_run (horiz_tokens r) w) /\
+  row (vt_run (horiz_tokens r) w) = row w /\ col (vt_run (horiz_tokens r) w) = col w /\
+  forall y x, v_grid (vt_run (horiz_tokens r) w) y x =
+              if in_region T B L R y x
+              then (if (L <=? x + r) && (x + r <=? R) then v_grid w y (x + r) else blank w)
+              else v_grid w y x.
+Proof.
+  intros w r T B L R Hm Hrow Hcol HLR Hr.
+  assert (Htb : in_tb w (row w) = true) by (unfold in_tb; rewrite Hm; cbn [mg_top mg_bot]; lia).
+  assert (Hlr : in_lr w (col w) = true) by (unfold in_lr; rewrite Hm, Hcol; cbn [mg_left mg_right]; lia).
+  assert (Hdel : forall n, 0 < n -> n = r ->
+     same_frame w (vt_decdc w n) /\ row (vt_decdc w n) = row w /\ col (vt_decdc w n) = col w /\
+     forall y x, v_grid (vt_decdc w n) y x =
+        if in_region T B L R y x
+        then (if (L <=? x + r) && (x + r <=? R) then v_grid w y (x + r) else blank w) else v_grid w y x).
+  { intros n Hn Hnd. unfold vt_decdc. rewrite Htb, Hlr. cbn [andb]. vt_unfold.
+    split; [repeat split|]. split; [reflexivity|]. split; [reflexivity|].
+    intros y x. unfold in_region, in_tb. rewrite Hm. cbn [mg_top mg_bot mg_left mg_right].
+    unfold col in Hcol. rewrite Hcol.
+    destruct ((T <=? y) && (y <=? B) && (L <=? x) && (x <=? R)) eqn:E1.
+    - destruct (x + n <=? R) eqn:E3.
+      + destruct ((L <=? x + r) && (x + r <=? R)) eqn:E4; [|lia]. subst n. reflexivity.
+      + destruct ((L <=? x + r) && (x + r <=? R)) eqn:E4; [lia|]. reflexivity.
+    - reflexivity. }
+  assert (Hins : forall n, 0 < n -> n = - r ->
+     same_frame w (vt_decic w n) /\ row (vt_decic w n) = row w /\ col (vt_decic w n) = col w /\
+     forall y x, v_grid (vt_decic w n) y x =
+        if in_region T B L R y x
+        then (if (L <=? x + r) && (x + r <=? R) then v_grid w y (x + r) else blank w) else v_grid w y x).
+  { intros n Hn Hnd. unfold vt_decic. rewrite Htb, Hlr. cbn [andb]. vt_unfold.
+    split; [repeat split|]. split; [reflexivity|]. split; [reflexivity|].
+    intros y x. unfold in_region, in_tb. rewrite Hm. cbn [mg_top mg_bot mg_left mg_right].
+    unfold col in Hcol. rewrite Hcol.
+    destruct ((T <=? y) && (y <=? B) && (L <=? x) && (x <=? R)) eqn:E1.
+    - destruct (x <? L + n) eqn:E3.
+      + destruct ((L <=? x + r) && (x + r <=? R)) eqn:E4; [lia|]. reflexivity.
+      + destruct ((L <=? x + r) && (x + r <=? R)) eqn:E4; [|lia].
+        replace (x - n) with (x + r) by lia. reflexivity.
+    - reflexivity. }
+  unfold horiz_tokens.
+  destruct (1 <? r) eqn:E1.
+  - destruct (r <? -1) eqn:E5; [lia|]. rewrite app_nil_r.
+    rewrite run_decdc. destruct (r =? 0) eqn:E0; [lia|]. apply Hdel; lia.
+  - destruct (r =? 1) eqn:E2.
+    + destruct (r <? -1) eqn:E5; [lia|]. rewrite app_nil_r. rewrite run_decdc0. apply Hdel; lia.
+    + destruct (r =? -1) eqn:E3.
+      * destruct (r <? -1) eqn:E5; [lia|]. rewrite app_nil_r. rewrite run_decic0. apply Hins; lia.
+      * destruct (r <? -1) eqn:E4.
+        -- cbn [app]. rewrite run_decic. destruct (- r =? 0) eqn:E0; [lia|]. apply Hins; lia.
+        -- cbn [app]. rewrite vt_run_nil. split; [apply same_frame_refl|]. split; [reflexivity|]. split; [reflexivity|].
+           intros y x. assert (r = 0) by lia. subst r. rewrite Z.add_0_r.
+           unfold in_region.
+           destruct ((T <=? y) && (y <=? B) && (L <=? x) && (x <=? R)) eqn:E5; [|reflexivity].
+           destruct ((L <=? x) && (x <=? R)) eqn:E6; [reflexivity|lia].
+Qed.
+
+(* strategy 1: insert / delete characters line by line *)
+Lemma insdel_run : forall w r L R,
+  mg_right (v_mg w) = R -> mg_left (v_mg w) <= L -> col w = L -> L <= R -> Z.abs r <= R - L ->
+  same_frame w (vt_run (insdel_chars r) w) /\
+  row (vt_run (insdel_chars r) w) = row w /\ col (vt_run (insdel_chars r) w) = col w /\
+  forall y x, v_grid (vt_run (insdel_chars r) w) y x =
+              if (y =? row w) && (L <=? x) && (x <=? R)
+              then (if (L <=? x + r) && (x + r <=? R) then v_grid w y (x + r) else blank w)
+              else v_grid w y x.
+Proof.
+  intros w r L R HR HL Hcol HLR Hr.
+  assert (Hlr : in_lr w (col w) = true) by (unfold in_lr; rewrite HR, Hcol; lia).
+  assert (Hdel : forall n, 0 < n -> n = r ->
+     same_frame w (vt_dch w n) /\ row (vt_dch w n) = row w /\ col (vt_dch w n) = col w /\
+     forall y x, v_grid (vt_dch w n) y x =
+        if (y =? row w) && (L <=? x) && (x <=? R)
+        then (if (L <=? x + r) && (x + r <=? R) then v_grid w y (x + r) else blank w) else v_grid w y x).
+  { intros n Hn Hnd. unfold vt_dch. rewrite Hlr. vt_unfold.
+    split; [repeat split|]. split; [reflexivity|]. split; [reflexivity|].
+    intros y x. rewrite HR. unfold col in Hcol. rewrite Hcol.
+    destruct ((y =? cu_row (v_cur w)) && (L <=? x) && (x <=? R)) eqn:E1; [|reflexivity].
+    destruct (x + n <=? R) eqn:E3.
+    - destruct ((L <=? x + r) && (x + r <=? R)) eqn:E4; [|lia]. subst n. reflexivity.
+    - destruct ((L <=? x + r) && (x + r <=? R)) eqn:E4; [lia|]. reflexivity. }
+  assert (Hins : forall n, 0 < n -> n = - r ->
+     same_frame w (vt_ich w n) /\ row (vt_ich w n) = row w /\ col (vt_ich w n) = col w /\
+     forall y x, v_grid (vt_ich w n) y x =
+        if (y =? row w) && (L <=? x) && (x <=? R)
+        then (if (L <=? x + r) && (x + r <=? R) then v_grid w y (x + r) else blank w) else v_grid w y x).
+  { intros n Hn Hnd. unfold vt_ich. rewrite Hlr. vt_unfold.
+    split; [repeat split|]. split; [reflexivity|]. split; [reflexivity|].
+    intros y x. rewrite HR. unfold col in Hcol. rewrite Hcol.
+    destruct ((y =? cu_row (v_cur w)) && (L <=? x) && (x <=? R)) eqn:E1; [|reflexivity].
+    destruct (x <? L + n) eqn:E3.
+    - destruct ((L <=? x + r) && (x + r <=? R)) eqn:E4; [lia|]. reflexivity.
+    - destruct ((L <=? x + r) && (x + r <=? R)) eqn:E4; [|lia].
+      replace (x - n) with (x + r) by lia. reflexivity. }
+  unfold insdel_chars.
+  destruct (1 <? r) eqn:E1.
+  - rewrite run_dch. destruct (r =? 0) eqn:E0; [lia|]. apply Hdel; lia.
+  - destruct (r =? 1) eqn:E2.
+    + rewrite run_dch0. apply Hdel; lia.
+    + destruct (r =? -1) eqn:E3.
+      * rewrite run_ich0. apply Hins; lia.
+      * destruct (r <? -1) eqn:E4.
+        -- rewrite run_ich. destruct (- r =? 0) eqn:E0; [lia|]. apply Hins; lia.
+        -- rewrite vt_run_nil. split; [apply same_frame_refl|]. split; [reflexivity|]. split; [reflexivity|].
+           intros y x. assert (r = 0) by lia. subst r. rewrite Z.add_0_r.
+           destruct ((y =? row w) && (L <=? x) && (x <=? R)) eqn:E5; [|reflexivity].
+           destruct ((L <=? x) && (x <=? R)) eqn:E6; [reflexivity|lia].
+Qed.
+
+Lemma blank_frame : forall w w', same_frame w w' -> blank w' = blank w.
+Proof. intros w w' (_ & _ & _ & F4 & _). unfold blank. rewrite F4. reflexivity. Qed.
+
+Lemma scroll_lines_run : forall n line w r L R,
+  mg_right (v_mg w) = R -> mg_left (v_mg w) <= L -> 0 <= L -> L <= R -> R < v_cols w ->
+  Z.abs r <= R - L -> 0 <= line -> line + Z.of_nat n <= v_lines w ->
+  0 <= row w < v_lines w -> 0 <= col w < v_cols w ->
+  same_frame w (vt_run (scroll_lines n line L r) w) /\
+  0 <= row (vt_run (scroll_lines n line L r) w) < v_lines w /\
+  0 <= col (vt_run (scroll_lines n line L r) w) < v_cols w /\
+  forall y x, v_grid (vt_run (scroll_lines n line L r) w) y x =
+              if (line <=? y) && (y <? line + Z.of_nat n) && (L <=? x) && (x <=? R)
+              then (if (L <=? x + r) && (x + r <=? R) then v_grid w y (x + r) else blank w)
+              else v_grid w y x.
+Proof.
+  induction n as [|n IH]; intros line w r L R HR HL HL0 HLR HRc Hr Hline Hn Hrow Hcol.
+  - cbn [scroll_lines]. rewrite vt_run_nil. split; [apply same_frame_refl|]. split; [assumption|].
+    split; [assumption|]. intros y x.
+    destruct ((line <=? y) && (y <? line + Z.of_nat 0) && (L <=? x) && (x <=? R)) eqn:E; [lia|reflexivity].
+  - rewrite Nat2Z.inj_succ in *. cbn [scroll_lines]. rewrite !vt_run_app.
+    rewrite goto_abs_pos by lia.
+    set (w1 := set_cur w (mkCursor line L false)).
+    assert (F1 : same_frame w w1) by (repeat split).
+    destruct (insdel_run w1 r L R) as (F2 & Hrow2 & Hcol2 & Hg2);
+      try (unfold w1; vt_unfold; assumption || lia).
+    set (w2 := vt_run (insdel_chars r) w1) in *. clearbody w2.
+    destruct F2 as (A1 & A2 & A3 & A4 & A5).
+    unfold w1 in A1, A2, A3, A4, A5, Hrow2, Hcol2, Hg2. vt_unfold.
+    destruct (IH (line + 1) w2 r L R) as (F3 & Hrow3 & Hcol3 & Hg3);
+      try (rewrite ?A1, ?A2, ?A3; assumption || lia).
+    set (w3 := vt_run (scroll_lines n (line + 1) L r) w2) in *. clearbody w3.
+    split.
+    { eapply same_frame_trans; [|exact F3]. repeat split; assumption. }
+    split; [rewrite A1 in Hrow3; exact Hrow3|]. split; [rewrite A2 in Hcol3; exact Hcol3|].
+    intros y x. rewrite Hg3.
+    assert (Hb : blank w2 = blank w) by (unfold blank; rewrite A4; reflexivity).
+    rewrite Hb.
+    destruct ((line + 1 <=? y) && (y <? line + 1 + Z.of_nat n) && (L <=? x) && (x <=? R)) eqn:E1.
+    + destruct ((line <=? y) && (y <? line + Z.succ (Z.of_nat n)) && (L <=? x) && (x <=? R)) eqn:E2; [|lia].
+      destruct ((L <=? x + r) && (x + r <=? R)) eqn:E3; [|reflexivity].
+      rewrite Hg2. destruct ((y =? line) && (L <=? x + r) && (x + r <=? R)) eqn:E4; [lia|reflexivity].
+    + rewrite Hg2.
+      destruct ((y =? line) && (L <=? x) && (x <=? R)) eqn:E4.
+      * destruct ((line <=? y) && (y <? line + Z.succ (Z.of_nat n)) && (L <=? x) && (x <=? R)) eqn:E2; [|lia].
+        unfold blank at 1. reflexivity.
+      * destruct ((line <=? y) && (y <? line + Z.succ (Z.of_nat n)) && (L <=? x) && (x <=? R)) eqn:E2; [lia|].
+        reflexivity.
+Qed.
+
+(* from the cell-wise description of the screen after a scroll to the request's meaning *)
+Lemma scroll_effect : forall v v' r d rt silent, vt_ok v ->
+  same_frame v v' -> 0 <= row v' < v_lines v -> 0 <= col v' < v_cols v ->
+  (forall y x, v_grid v' y x =
+               if in_rect r y x
+               then (if in_rect r (y + d) (x + rt) then v_grid v (y + d) (x + rt) else blank v)
+               else v_grid v y x) ->
+  effect_ok (RScroll r d rt) true silent v v' /\ vt_ok v'.
+Proof.
+  intros v v' r d rt silent Hok Hf Hrow Hcol Hg. split.
+  - unfold effect_ok. refine (conj _ (conj _ (conj _ _))).
+    + apply frame_okb_intro; assumption.
+    + unfold effect_cursorb. lia.
+    + destruct Hf as (_ & _ & _ & F4 & _). rewrite F4. apply attrs_eqb_refl.
+    + intros y x _ _. unfold effect_cellb. rewrite Hg.
+      destruct (in_rect r y x); [|apply cell_eqb_refl].
+      destruct (in_rect r (y + d) (x + rt)); [apply cell_eqb_refl|reflexivity].
+  - apply (vt_ok_frame v v' Hok Hf); assumption.
+Qed.
+
+Lemma scroll_ok : forall v slrm r d rt, vt_ok v -> in_range (RScroll r d rt) v ->
+  (slrm = true -> md_lrmm (v_md v) = true) ->
+  effect_ok (RScroll r d rt) (fst (xt_scrollrect slrm (v_cols v) r d rt))
+            (match snd (xt_scrollrect slrm (v_cols v) r d rt) with [] => true | _ => false end) v
+            (vt_run (snd (xt_scrollrect slrm (v_cols v) r d rt)) v) /\
+  vt_ok (vt_run (snd (xt_scrollrect slrm (v_cols v) r d rt)) v).
+Proof.
+  intros v slrm r d rt Hok Hr Hlrmm.
+  pose proof (full_margins_of_ok v Hok) as Hm.
+  destruct (vt_ok_inv v Hok) as (HL & HC & Mt & Mb & Ml & Mr & Hawm & Hrow & Hcol).
+  unfold in_range, in_rangeb in Hr. unfold r_bottom, r_right in Hr.
+  destruct r as [top left lines cols]. cbn [r_top r_left r_lines r_cols] in Hr.
+  unfold xt_scrollrect. cbn [r_top r_left r_lines r_cols r_right r_bottom].
+  unfold r_right, r_bottom. cbn [r_top r_left r_lines r_cols].
+  destruct ((d =? 0) && (rt =? 0)) eqn:E0.
+  { (* nothing to move *)
+    cbn [fst snd]. rewrite vt_run_nil.
+    apply scroll_effect; try assumption; [apply same_frame_refl|].
+    intros y x. assert (d = 0) by lia. assert (rt = 0) by lia. subst d rt. rewrite !Z.add_0_r.
+    destruct (in_rect (mkRect top left lines cols) y x); reflexivity. }
+  destruct (((slrm && (lines =? 1)) || (left + cols =? v_cols v)) && (d =? 0)) eqn:E1.
+  { (* strategy 1 *)
+    cbn [fst snd]. assert (d = 0) by lia. subst d.
+    destruct (left + cols <? v_cols v) eqn:E2.
+    - (* with a right margin *)
+      assert (Hs : slrm = true) by (destruct slrm; [reflexivity|lia]).
+      specialize (Hlrmm Hs).
+      rewrite !vt_run_app.
+      rewrite run_decslrm_right by (assumption || lia).
+      set (w1 := goto_rc (set_mg v (mkMargins (mg_top (v_mg v)) (mg_bot (v_mg v)) 0 (left + cols - 1))) 0 0).
+      assert (F1 : same_frame v w1 -> True) by trivial.
+      destruct (scroll_lines_run (Z.to_nat lines) top w1 rt left (left + cols - 1))
+        as (F2 & Hrow2 & Hcol2 & Hg2); try (unfold w1; vt_unfold; cbn [mg_left mg_right]; lia).
+      set (w2 := vt_run (scroll_lines (Z.to_nat lines) top left rt) w1) in *. clearbody w2.
+      destruct F2 as (A1 & A2 & A3 & A4 & A5). unfold w1 in A1, A2, A3, A4, A5, Hrow2, Hcol2, Hg2. vt_unfold.
+      rewrite run_decslrm_reset by (rewrite ?A5, ?A2; assumption || lia).
+      apply scroll_effect; try assumption.
+      + unfold same_frame. vt_unfold. cbn [mg_top mg_bot mg_left mg_right].
+        refine (conj _ (conj _ (conj _ (conj _ _)))); try congruence.
+        rewrite A3. cbn [mg_top mg_bot]. rewrite Hm. unfold full_margins. cbn [mg_top mg_bot].
+        f_equal; congruence.
+      + vt_unfold. lia.
+      + vt_unfold. lia.
+      + intros y x. vt_unfold. rewrite Hg2. unfold in_rect, r_bottom, r_right. cbn [r_top r_left r_lines r_cols].
+        rewrite Z.add_0_r.
+        destruct ((top <=? y) && (y <? top + Z.of_nat (Z.to_nat lines)) && (left <=? x) && (x <=? left + cols - 1)) eqn:B1.
+        * destruct ((top <=? y) && (y <? top + lines) && (left <=? x) && (x <? left + cols)) eqn:B2; [|lia].
+          destruct ((left <=? x + rt) && (x + rt <=? left + cols - 1)) eqn:B3.
+          -- destruct ((top <=? y) && (y <? top + lines) && (left <=? x + rt) && (x + rt <? left + cols)) eqn:B4; [|lia].
+             reflexivity.
+          -- destruct ((top <=? y) && (y <? top + lines) && (left <=? x + rt) && (x + rt <? left + cols)) eqn:B4; [lia|].
+             reflexivity.
+        * destruct ((top <=? y) && (y <? top + lines) && (left <=? x) && (x <? left + cols)) eqn:B2; [lia|].
+          reflexivity.
+    - (* up to the right edge of the screen *)
+      cbn [app]. rewrite app_nil_r.
+      destruct (scroll_lines_run (Z.to_nat lines) top v rt left (v_cols v - 1))
+        as (F2 & Hrow2 & Hcol2 & Hg2); try (assumption || lia).
+      apply scroll_effect; try assumption.
+      intros y x. rewrite Hg2. unfold in_rect, r_bottom, r_right. cbn [r_top r_left r_lines r_cols].
+      rewrite Z.add_0_r.
+      destruct ((top <=? y) && (y <? top + Z.of_nat (Z.to_nat lines)) && (left <=? x) && (x <=? v_cols v - 1)) eqn:B1.
+      * destruct ((top <=? y) && (y <? top + lines) && (left <=? x) && (x <? left + cols)) eqn:B2; [|lia].
+        destruct ((left <=? x + rt) && (x + rt <=? v_cols v - 1)) eqn:B3.
+        -- destruct ((top <=? y) && (y <? top + lines) && (left <=? x + rt) && (x + rt <? left + cols)) eqn:B4; [|lia].
+           reflexivity.
+        -- destruct ((top <=? y) && (y <? top + lines) && (left <=? x + rt) && (x + rt <? left + cols)) eqn:B4; [lia|].
+           reflexivity.
+      * destruct ((top <=? y) && (y <? top + lines) && (left <=? x) && (x <? left + cols)) eqn:B2; [lia|].
+        reflexivity. }
+  destruct (slrm || ((left =? 0) && (cols =? v_cols v) && (rt =? 0))) eqn:E3.
+  2:{ (* cannot be done: nothing written *)
+      cbn [fst snd]. rewrite vt_run_nil. split; [reflexivity|exact Hok]. }
+  destruct (((0 <? left) || (left + cols <? v_cols v)) && (cols <? 2)) eqn:E4.
+  { cbn [fst snd]. rewrite vt_run_nil. split; [reflexivity|exact Hok]. }
+  (* strategy 2: both pairs of margins *)
+  cbn [fst snd].
+  assert (Hlines2 : 2 <= lines) by lia.
+  change (if 1 <? d then [csi_n d 77] else if d =? 1 then [csi_0 77]
+          else if d =? -1 then [csi_0 76] else if d <? -1 then [csi_n (- d) 76] else [])
+    with (vert_tokens d).
+  match goal with
+  | |- context [?h1 ++ (?h2 ++ [csi_0 114] ++ ?s)] =>
+      replace (h1 ++ (h2 ++ [csi_0 114] ++ s)) with (horiz_tokens rt ++ [csi_0 114] ++ s)
+        by (unfold horiz_tokens; rewrite <- app_assoc; reflexivity)
+  end.
+  rewrite !vt_run_app.
+  rewrite run_decstbm by lia.
+  set (w1 := goto_rc (set_mg v (mkMargins (top + 1 - 1) (top + lines - 1) (mg_left (v_mg v)) (mg_right (v_mg v)))) 0 0).
+  destruct ((0 <? left) || (left + cols <? v_cols v)) eqn:Elr.
+  - (* left/right margins needed *)
+    assert (Hs : slrm = true) by (destruct slrm; [reflexivity|lia]).
+    specialize (Hlrmm Hs).
+    rewrite run_decslrm by (unfold w1; vt_unfold; assumption || lia).
+    set (w2 := goto_rc (set_mg w1 (mkMargins (mg_top (v_mg w1)) (mg_bot (v_mg w1)) (left + 1 - 1) (left + cols - 1))) 0 0).
+    rewrite goto_abs_pos by (unfold w2, w1; vt_unfold; lia).
+    set (w3 := set_cur w2 (mkCursor top left false)).
+    destruct (vert_run w3 d top (top + lines - 1) left (left + cols - 1))
+      as (F4 & Hrow4 & Hcol4 & Hg4);
+      try (unfold w3, w2, w1; vt_unfold; cbn [mg_top mg_bot]; (reflexivity || lia)).
+    { unfold w3, w2, w1. vt_unfold. cbn [mg_top mg_bot]. f_equal; lia. }
+    set (w4 := vt_run (vert_tokens d) w3) in *. clearbody w4.
+    destruct F4 as (A1 & A2 & A3 & A4 & A5).
+    unfold w3, w2, w1 in A1, A2, A3, A4, A5, Hrow4, Hcol4, Hg4. vt_unfold. cbn [mg_top mg_bot] in A3.
+    destruct (horiz_run w4 rt top (top + lines - 1) left (left + cols - 1))
+      as (F5 & Hrow5 & Hcol5 & Hg5); try (unfold row, col; rewrite ?Hrow4, ?Hcol4; lia).
+    { rewrite A3. f_equal; lia. }
+    set (w5 := vt_run (horiz_tokens rt) w4) in *. clearbody w5.
+    destruct F5 as (B1 & B2 & B3 & B4 & B5).
+    rewrite run_decstbm_reset by (rewrite B1, A1; lia).
+    rewrite run_decslrm_reset by (vt_unfold; rewrite ?B5, ?A5, ?B2, ?A2; assumption || lia).
+    apply scroll_effect; try assumption.
+    + unfold same_frame. vt_unfold. cbn [mg_top mg_bot mg_left mg_right].
+      refine (conj _ (conj _ (conj _ (conj _ _)))); try congruence.
+      rewrite Hm. unfold full_margins. f_equal; congruence.
+    + vt_unfold. lia.
+    + vt_unfold. lia.
+    + intros y x. vt_unfold. rewrite Hg5, !Hg4.
+      assert (Hb : blank w4 = blank v) by (unfold blank; rewrite A4; reflexivity).
+      rewrite Hb. unfold blank at 1 2 3.
+      unfold in_region, in_rect, r_bottom, r_right. cbn [r_top r_left r_lines r_cols].
+      destruct ((top <=? y) && (y <=? top + lines - 1) && (left <=? x) && (x <=? left + cols - 1)) eqn:C1.
+      * destruct ((top <=? y) && (y <? top + lines) && (left <=? x) && (x <? left + cols)) eqn:C2; [|lia].
+        destruct ((left <=? x + rt) && (x + rt <=? left + cols - 1)) eqn:C3.
+        -- destruct ((top <=? y) && (y <=? top + lines - 1) && (left <=? x + rt) && (x + rt <=? left + cols - 1)) eqn:C4; [|lia].
+           destruct ((top <=? y + d) && (y + d <=? top + lines - 1)) eqn:C5.
+           ++ destruct ((top <=? y + d) && (y + d <? top + lines) && (left <=? x + rt) && (x + rt <? left + cols)) eqn:C6; [|lia].
+              reflexivity.
+           ++ destruct ((top <=? y + d) && (y + d <? top + lines) && (left <=? x + rt) && (x + rt <? left + cols)) eqn:C6; [lia|].
+              reflexivity.
+        -- destruct ((top <=? y + d) && (y + d <? top + lines) && (left <=? x + rt) && (x + rt <? left + cols)) eqn:C6; [lia|].
+           reflexivity.
+      * destruct ((top <=? y) && (y <? top + lines) && (left <=? x) && (x <? left + cols)) eqn:C2; [lia|].
+        reflexivity.
+  - (* full width: only top/bottom margins *)
+    cbn [app]. rewrite !vt_run_nil.
+    assert (Hl0 : left = 0) by lia. assert (Hcw : cols = v_cols v) by lia.
+    rewrite goto_abs_pos by (unfold w1; vt_unfold; lia).
+    set (w3 := set_cur w1 (mkCursor top left false)).
+    destruct (vert_run w3 d top (top + lines - 1) left (left + cols - 1))
+      as (F4 & Hrow4 & Hcol4 & Hg4);
+      try (unfold w3, w1; vt_unfold; cbn [mg_top mg_bot]; (reflexivity || lia)).
+    { unfold w3, w1. vt_unfold. cbn [mg_top mg_bot]. rewrite Ml, Mr. f_equal; lia. }
+    set (w4 := vt_run (vert_tokens d) w3) in *. clearbody w4.
+    destruct F4 as (A1 & A2 & A3 & A4 & A5).
+    unfold w3, w1 in A1, A2, A3, A4, A5, Hrow4, Hcol4, Hg4. vt_unfold. cbn [mg_top mg_bot] in A3.
+    destruct (horiz_run w4 rt top (top + lines - 1) left (left + cols - 1))
+      as (F5 & Hrow5 & Hcol5 & Hg5); try (unfold row, col; rewrite ?Hrow4, ?Hcol4; lia).
+    { rewrite A3, Ml, Mr. f_equal; lia. }
+    set (w5 := vt_run (horiz_tokens rt) w4) in *. clearbody w5.
+    destruct F5 as (B1 & B2 & B3 & B4 & B5).
+    rewrite run_decstbm_reset by (rewrite B1, A1; lia).
+    apply scroll_effect; try assumption.
+    + unfold same_frame. vt_unfold. cbn [mg_top mg_bot mg_left mg_right].
+      refine (conj _ (conj _ (conj _ (conj _ _)))); try congruence.
+      rewrite B3, A3. cbn [mg_left mg_right]. rewrite Hm. unfold full_margins. cbn [mg_left mg_right].
+      f_equal; congruence.
+    + vt_unfold. lia.
+    + vt_unfold. lia.
+    + intros y x. vt_unfold. rewrite Hg5, !Hg4.
+      assert (Hb : blank w4 = blank v) by (unfold blank; rewrite A4; reflexivity).
+      rewrite Hb. unfold blank at 1 2 3.
+      unfold in_region, in_rect, r_bottom, r_right. cbn [r_top r_left r_lines r_cols].
+      destruct ((top <=? y) && (y <=? top + lines - 1) && (left <=? x) && (x <=? left + cols - 1)) eqn:C1.
+      * destruct ((top <=? y) && (y <? top + lines) && (left <=? x) && (x <? left + cols)) eqn:C2; [|lia].
+        destruct ((left <=? x + rt) && (x + rt <=? left + cols - 1)) eqn:C3.
+        -- destruct ((top <=? y) && (y <=? top + lines - 1) && (left <=? x + rt) && (x + rt <=? left + cols - 1)) eqn:C4; [|lia].
+           destruct ((top <=? y + d) && (y + d <=? top + lines - 1)) eqn:C5.
+           ++ destruct ((top <=? y + d) && (y + d <? top + lines) && (left <=? x + rt) && (x + rt <? left + cols)) eqn:C6; [|lia].
+              reflexivity.
+           ++ destruct ((top <=? y + d) && (y + d <? top + lines) && (left <=? x + rt) && (x + rt <? left + cols)) eqn:C6; [lia|].
+              reflexivity.
+        -- destruct ((top <=? y + d) && (y + d <? top + lines) && (left <=? x + rt) && (x + rt <? left + cols)) eqn:C6; [lia|].
+           reflexivity.
+      * destruct ((top <=? y) && (y <? top + lines) && (left <=? x) && (x <? left + cols)) eqn:C2; [lia|].
+        reflexivity.
 Qed.
